@@ -1,4 +1,5 @@
 mod bisync;
+mod c01bytes;
 mod c04;
 mod c04wire;
 mod c13;
@@ -25,6 +26,7 @@ fn main() {
     let sy_bin = arg(&args, "--sy", "/verif/.build/target/debug/sy");
     let replay: Option<String> = args.iter().position(|a| a == "--replay").and_then(|i| args.get(i + 1)).cloned();
     let rep = match stream {
+        "c01bytes" => c01bytes::run(&tier, seed, &driver, &work),
         "c04" => c04::run(&tier, seed, &driver, chunk, &work),
         "c04wire" => c04wire::run(&tier, seed, &driver, &work),
         "c11" => bisync::run("C11", &tier, seed, &driver, &work, &sy_bin, replay.as_deref()),
